@@ -93,9 +93,9 @@ mutant m13_interleaved_le sequences/absolute_sequence.py \
 mutant m14_equals_and sequences/absolute_sequence.py \
   'if self_msg\.note != other_msg\.note or self_msg_value != other_msg_value:' 'if self_msg.note != other_msg.note and self_msg_value != other_msg_value:' \
   "equals: notes differ only if pitch AND length differ (or -> and)"
-mutant m15_equals_has_next sequences/absolute_sequence.py \
-  'has_next = len\(channel_pairings_list\) > 0' 'has_next = any(len(channel_pairings_list[i][1]) > 0 for i in range(len(channel_pairings_list)))' \
-  "get_interleaved_message_pairings: the REPAIR of the IndexError finding (the theorem that states the finding must break)"
+mutant m15_revert_has_next_fix sequences/absolute_sequence.py \
+  'has_next = any\(channel_cur_index\[i\] < channel_max_index\[i\] for i in range\(len\(channel_pairings_list\)\)\)' 'has_next = len(channel_pairings_list) > 0' \
+  "get_interleaved_message_pairings: the fix 1462441 REVERTED (IndexError when no channel has a pairing; interleaved_eq must break)"
 
 echo "== quantise / quantise_note_lengths (theorems quantise_eq / quantiseNoteLengths_eq must break)"
 mutant m16_quantise_lt sequences/absolute_sequence.py \
